@@ -1063,6 +1063,147 @@ Definition from_text (c : cfg) (text : list Z) : res (option name * zone) :=
   do _ <- (if c_check c then check_origin c origin (zn s) else Ok tt);
   Ok (origin, zn s).
 
+(* ---------- dns.zonefile.read_rrsets(text, rdclass=None, origin=..., relativize=...) ----------
+   The same Reader with allow_directives=False (a "$..." first token is an owner name) writing into
+   an RRsetsReaderTransaction: a dict (name, rdtype, covers) -> rdataset, no nodes.  The dict is
+   kept as a list of (name, rdataset); the record-line logic is that of rr_line / rr_fields. *)
+Definition rrstore := list (name * rdataset).
+
+Fixpoint rrs_find (st : rrstore) (n : name) (ty cov : Z) : option rdataset :=
+  match st with
+  | [] => None
+  | (k, r) :: rest => if name_eqb k n && rds_match r ty cov then Some r else rrs_find rest n ty cov
+  end.
+
+Fixpoint rrs_set (st : rrstore) (n : name) (r : rdataset) : rrstore :=
+  match st with
+  | [] => [(n, r)]
+  | (k, r0) :: rest =>
+      if name_eqb k n && rds_match r0 (rtype r) (rcovers r) then (k, r) :: rest
+      else (k, r0) :: rrs_set rest n r
+  end.
+
+(* _get_node: the rdatasets of that name, in dict order *)
+Definition rrs_node (st : rrstore) (n : name) : node :=
+  map snd (filter (fun e => name_eqb (fst e) n) st).
+
+Definition rrs_add (zo : name) (rel : bool) (st : rrstore) (n : name) (ttl ty : Z) (rd : rdata) : res rrstore :=
+  let cov := covers_of ty rd in
+  let eff := if rel then [] else zo in
+  if (ty =? tSOA) && negb (name_eqb n eff) && (negb (name_eqb n zo) && negb (name_eqb n []))
+  then Internal iValueError
+  else
+    let r := match rrs_find st n ty cov with
+             | None => mkrds ty cov ttl [rd]
+             | Some e => rds_union e ttl rd
+             end in
+    do _ <- (match rrs_node st n with
+             | [] => Ok tt
+             | nd => match node_kind nd, rds_kind r with
+                     | KCname, KRegular => Lib eCNAMEAndOther
+                     | KRegular, KCname => Lib eCNAMEAndOther
+                     | _, _ => Ok tt
+                     end
+             end);
+    Ok (rrs_set st n r).
+
+Record rrstate := mkrr {
+  rr_last : option name; rr_lttl : Z; rr_lttl_known : bool; rr_dttl : Z; rr_dttl_known : bool;
+  rr_store : rrstore }.
+
+(* _rr_line with the RRsets transaction (origin co = zone origin zo, never changed) *)
+Definition rrs_line (c : cfg) (zo : name) (s : rrstate) (lead : bool) (toks : list tok) (lerr : bool)
+  : res rrstate :=
+  do (last, toks1, blank) <-
+     (if lead then
+        match toks with
+        | [] => Ok (rr_last s, toks, true)
+        | _ => Ok (rr_last s, toks, false)
+        end
+      else
+        match toks with
+        | TId v :: r => do n <- as_name true v (Some zo) false None; Ok (Some n, r, false)
+        | _ => Lib eSyntax
+        end);
+  let s0 := mkrr last (rr_lttl s) (rr_lttl_known s) (rr_dttl s) (rr_dttl_known s) (rr_store s) in
+  if blank then (if lerr then Lib eSyntax else Ok s0)
+  else
+    match last with
+    | None => Lib eSyntax
+    | Some name =>
+        if negb (is_subdomain name zo) then (if lerr then Lib eSyntax else Ok s0)
+        else
+          do n <- (if c_rel c then lift_name true (relativize name zo) else Ok name);
+          (* TTL *)
+          do (v1, r1) <- get_ident toks1;
+          let '(ttl, lt, ltk, toksa) :=
+            match ttl_from_text v1 with
+            | Ok t => (Some t, t, true, r1)
+            | _ => (None, rr_lttl s, rr_lttl_known s, toks1)
+            end in
+          (* class *)
+          do (v2, r2) <- get_ident toksa;
+          let '(cls, toksb) :=
+            match class_from_text v2 with
+            | Some k => (k, r2)
+            | None => (c_class c, toksa)
+            end in
+          if negb (cls =? c_class c) then Lib eSyntax
+          else
+            do (ttl, lt, ltk, toksc) <-
+               (match ttl with
+                | Some t => Ok (Some t, lt, ltk, toksb)
+                | None =>
+                    do (v3, r3) <- get_ident toksb;
+                    match ttl_from_text v3 with
+                    | Ok t => Ok (Some t, t, true, r3)
+                    | _ => Ok ((if rr_dttl_known s then Some (rr_dttl s)
+                                else if ltk then Some lt else None), lt, ltk, toksb)
+                    end
+                end);
+            do (v4, toksd) <- get_ident toksc;
+            match type_from_text v4 with
+            | None => Lib eSyntax
+            | Some ty =>
+                do rd <- parse_rdata ty toksd lerr zo (c_rel c) zo;
+                let '(ttl, dt, dtk) :=
+                  if negb (rr_dttl_known s) && (ty =? tSOA) then
+                    match nth_error rd 6 with
+                    | Some (VInt m) => ((match ttl with Some t => Some t | None => Some m end), m, true)
+                    | _ => (ttl, rr_dttl s, rr_dttl_known s)
+                    end
+                  else (ttl, rr_dttl s, rr_dttl_known s) in
+                match ttl with
+                | None => Lib eSyntax
+                | Some t =>
+                    do st' <- rrs_add zo (c_rel c) (rr_store s) n t ty rd;
+                    Ok (mkrr last lt ltk dt dtk st')
+                end
+            end
+    end.
+
+Fixpoint rrs_loop (fuel : nat) (c : cfg) (zo : name) (s : rrstate) (text : list Z) : res rrstate :=
+  match fuel with
+  | O => Internal iFuelZ
+  | S f =>
+      let '(toks, term, rest) := lex text 0 MSkip [] in
+      let lerr := match term with TErr => true | _ => false end in
+      do s' <- (if starts_ws text then rrs_line c zo s true toks lerr
+                else match toks with
+                     | [] => if lerr then Lib eSyntax else Ok s
+                     | _ => rrs_line c zo s false toks lerr
+                     end);
+      match term with
+      | TEof => Ok s'
+      | TEol => rrs_loop f c zo s' rest
+      | TErr => Lib eSyntax
+      end
+  end.
+
+Definition read_rrsets (c : cfg) (zo : name) (text : list Z) : res rrstore :=
+  do s <- rrs_loop (S (length text)) c zo (mkrr (Some zo) 0 false 0 false []) text;
+  Ok (rr_store s).
+
 (* ---------- the printer ---------- *)
 Record style := mkstyle {
   st_sorted : bool;
@@ -1270,6 +1411,13 @@ Definition run (c : obs) : obs :=
       match oname_of_obs o, opt_map node_of_obs nodes, style_of_obs st with
       | Some o, Some z, Some st => obs_res B (zone_text st (mkpz o (rel =? 1) 1 z))
       | _, _, _ => E eBadCase
+      end
+  | L [I 6; L o; I rel; B text] =>
+      match name_of_obs o with
+      | Some o =>
+          obs_res (fun st => L (map (fun e => L [obs_of_name (fst e); rds_dump (snd e)]) st))
+                  (read_rrsets (mkcfg (Some o) (rel =? 1) 1 false) o text)
+      | None => E eBadCase
       end
   | L [I 3; B t] => obs_res I (ttl_from_text t)
   | L [I 4; B t] => obs_res (fun '(a, b, s) => L [I a; I b; I s]) (grange_from_text t)
